@@ -33,3 +33,8 @@ nontrivial = B.nontrivial
 histogram = B.histogram
 pretty = B.pretty
 neighbours = B.neighbours
+
+
+def post(tier, seed):
+    from .. import concprop
+    return concprop.stage(PID, "C16", {5}, tier, seed, ['c16_concurrent_distinct'])
